@@ -207,7 +207,7 @@ def _fin(v):
         return None
 
 
-def fake_run(fn, example, dynamic):
+def fake_run(fn, example, dynamic, mkldnn=True):
     """Run ``fn(fake_input) -> {name: tensor}`` with the real modules under FakeTensorMode/ShapeEnv.
 
     example: concrete input shape used as the hint; dynamic: per-dim bool.  Dimensions whose example value is 0/1 are
@@ -221,11 +221,18 @@ def fake_run(fn, example, dynamic):
     dyn = [DimDynamic.DYNAMIC if (d and ev >= 2) else DimDynamic.STATIC for d, ev in zip(dynamic, example)]
     ctx = StatelessSymbolicContext(dynamic_sizes=dyn)
     x = torch.zeros(*example)
-    with mode:
-        fx = mode.from_tensor(x, symbolic_context=ctx)
-        in_dims = [_sz(s) for s in fx.shape]  # read before the run: later specialisations stay visible as guards
-        res = fn(fx)
-        outs = {k: tuple(_sz(s) for s in v.shape) for k, v in res.items()}
+    import torch._dynamo.config as _dc
+
+    old_cache = _dc.fake_tensor_cache_enabled
+    _dc.fake_tensor_cache_enabled = False  # no hits with symbolic sizes; computing the keys costs ~20% of a run
+    try:
+        with torch.backends.mkldnn.flags(enabled=mkldnn), mode:
+            fx = mode.from_tensor(x, symbolic_context=ctx)
+            in_dims = [_sz(s) for s in fx.shape]  # read before the run: later specialisations stay visible as guards
+            res = fn(fx)
+            outs = {k: tuple(_sz(s) for s in v.shape) for k, v in res.items()}
+    finally:
+        _dc.fake_tensor_cache_enabled = old_cache
     guards = [g.expr for g in env.guards]
     ranges = {}
     for s, vr in env.var_to_range.items():
@@ -306,7 +313,10 @@ class ShapeProblem:
     canary: callable  # f(outs, dims) -> list[(lhs, rhs)]  deliberately false claim
     nonlinear: dict = dataclasses.field(default_factory=dict)  # clause name -> names of outputs whose extents are abstracted
     max_cases: int = 48
+    mkldnn: bool = True  # False: the symbolic runs disable the mkldnn conv backend, which removes its numel-threshold selection guards
     replay_cap: int = 4 * 3 * 160 * 160
+    cases: list = None
+    zv: dict = None
 
 
 def _dims_from(names, channels, values):
@@ -366,7 +376,7 @@ def prove_shapes(problem: ShapeProblem, base: dict, ob_prefix: str, timeout_ms=2
         example = tuple(problem.channels[i] if i in problem.channels else m[n] for i, n in enumerate(names))
         dynamic = tuple(i not in problem.channels for i in range(len(names)))
         try:
-            run = fake_run(problem.run, example, dynamic)
+            run = fake_run(problem.run, example, dynamic, mkldnn=problem.mkldnn)
             zvars = [None if i in problem.channels else zv[n] for i, n in enumerate(names)]
             region = run.region(zvars)
             zmap = run.zmap(zvars)
@@ -392,6 +402,8 @@ def prove_shapes(problem: ShapeProblem, base: dict, ob_prefix: str, timeout_ms=2
         results[-1].witness = {"symfail": kind == "symfail"}
         return results
 
+    problem.cases = cases
+    problem.zv = zv
     results.append(mk("cover", verdict="discharged", paths=len(cases), detail=f"precondition satisfiable (e.g. {m0}); each of the {len(cases)} guard cases has a representative input that was run on the real module"))
     case_desc = "; ".join("x".join(str(v) for v in c[3]) for c in cases[:12])
     n_guards = sum(len(c[0].guards) for c in cases)
@@ -400,7 +412,8 @@ def prove_shapes(problem: ShapeProblem, base: dict, ob_prefix: str, timeout_ms=2
             "guards_covered",
             verdict="discharged",
             paths=len(cases),
-            detail=f"precondition => OR of {len(cases)} case regions (z3 unsat on the complement); {n_guards} ShapeEnv guards + value ranges translated; representatives {case_desc}",
+            detail=f"precondition => OR of {len(cases)} case regions (z3 unsat on the complement); {n_guards} ShapeEnv guards + value ranges translated; representatives {case_desc}"
+            + ("" if problem.mkldnn else " | symbolic runs with torch.backends.mkldnn disabled (assumption: conv backend selection does not change output sizes; the thorough tier keeps it enabled and splits on its numel thresholds)"),
         )
     )
 
@@ -488,27 +501,36 @@ def prove_shapes(problem: ShapeProblem, base: dict, ob_prefix: str, timeout_ms=2
     return results
 
 
-def native_crosscheck(problem: ShapeProblem, sizes, base, ob, sym_exprs_run=None):
-    """Differential check of the symbolic shape expressions against the real kernels (guards the 'meta kernels == real kernels' assumption)."""
+def native_crosscheck(problem: ShapeProblem, sizes, base, ob):
+    """Differential check of the symbolic size expressions of the explored cases against the real kernels (guards the
+    'meta kernels == real kernels' assumption and the sympy->z3->int evaluation chain)."""
     t0 = time.time()
     n, bad = 0, None
     names = problem.names
     dyn_names = [n_ for i, n_ in enumerate(names) if i not in problem.channels]
     for vals_t in sizes:
         vals = dict(zip(dyn_names, vals_t))
-        example = tuple(problem.channels[i] if i in problem.channels else vals[n_] for i, n_ in enumerate(names))
-        dynamic = tuple(i not in problem.channels for i in range(len(names)))
-        run = fake_run(problem.run, example, dynamic)
-        sv = {d: ev for d, ev in zip(run.in_dims, example) if isinstance(d, sympy.Symbol)}
-        pred = {k: tuple(sym_eval(e, sv) for e in shp) for k, shp in run.outs.items()}
-        real, _ = _native_shapes(problem, vals)
+        hit = None
+        for run, region, zmap, example in problem.cases or []:
+            s = z3.Solver()
+            s.add(region, *[problem.zv[k] == v for k, v in vals.items()])
+            if s.check() == z3.sat:
+                hit = run
+                break
+        if hit is None:
+            if bad is None:
+                bad = {"input": vals, "problem": "no explored guard case contains this admissible size"}
+            continue
+        sv = {d: vals[nm] for d, nm in zip(hit.in_dims, names) if isinstance(d, sympy.Symbol)}
+        pred = {k: tuple(sym_eval(e, sv) for e in shp) for k, shp in hit.outs.items()}
+        real, in_shape = _native_shapes(problem, vals)
         n += 1
         if pred != real and bad is None:
-            bad = {"input": list(example), "symbolic": {k: list(v) for k, v in pred.items()}, "real": {k: list(v) for k, v in real.items()}}
+            bad = {"input": list(in_shape), "symbolic": {k: list(v) for k, v in pred.items()}, "real": {k: list(v) for k, v in real.items()}}
     r = ObResult(ob=ob, engine="E3", backend="native", kind="bounded", **base)
     r.paths = n
     r.verdict = "discharged" if bad is None else "error"
-    r.detail = f"bounded: symbolic size expressions evaluated at {n} concrete sizes equal the shapes the real kernels produce" if bad is None else f"engine fault: FakeTensor shape differs from the real kernel: {bad}"
+    r.detail = f"bounded: symbolic size expressions of the matching guard case, evaluated at {n} concrete sizes, equal the shapes the real kernels produce on real tensors" if bad is None else f"engine fault: FakeTensor shape differs from the real kernel: {bad}"
     r.witness = bad
     r.wall_s = round(time.time() - t0, 3)
     return r
@@ -710,6 +732,7 @@ class TaintAnalysis:
         self.cache = {}
         self.max_depth = max_depth
         self.followed = []
+        self.notes = []
         self.not_followed = []
         self.prefix = tuple(repo_prefix)
         self.extra_modules = tuple(extra_modules)
@@ -1030,6 +1053,10 @@ class _FuncTaint:
             if rt and m in ("to", "type") and any(any(d in ast.unparse(a).split(".")[-1:] for d in INT_DTYPES) for a in args):
                 self.flag(e, "integer cast (no gradient)")
                 return True
+            if rt and self.record and (m in ("float", "half", "bfloat16") or (m in ("to", "type") and any(d in ast.unparse(a) for a in args for d in ("float32", "float16", "bfloat16", "torch.float)", "torch.half")))):
+                note = f"{self.file.split('/kaira/')[-1]}:{self.first + e.lineno - 1} precision downcast of a signal-dependent value: `{ast.unparse(e)[:80]}` (differentiable, but quantises the value)"
+                if note not in self.ta.notes:
+                    self.ta.notes.append(note)
             if rt and m == "requires_grad_" and args and ast.unparse(args[0]) == "False":
                 self.flag(e, "requires_grad_(False) on a signal-dependent value")
                 return True
